@@ -148,6 +148,21 @@ pub fn eval(c: &Case) -> Eval {
         let o = run_pmh(other, c.hasher, m, &canonical(other, &sorted));
         same_sig(&canon, &o, "ProbMinHash3 vs ProbMinHash3a", &mut ties)?;
     }
+    // the map entry points of 3a / 3a-Sha accept weight 0 (such an entry is not part of the set): foreign zero-weight entries
+    // before, between and after the items must change nothing
+    if (c.variant == Variant::P3a || c.variant == Variant::P3aSha) && !tiny {
+        let mut with_zeros: Vec<(u64, f64)> = vec![(PLACEHOLDER - 1, 0.0)];
+        for (i, p) in sorted.iter().enumerate() {
+            with_zeros.push(*p);
+            if i % 2 == 0 {
+                with_zeros.push((PLACEHOLDER - 2 - i as u64, 0.0));
+            }
+        }
+        if !labels.contains(&(PLACEHOLDER - 1)) && with_zeros.iter().map(|p| p.0).collect::<HashSet<_>>().len() == with_zeros.len() {
+            let o = run_pmh(c.variant, c.hasher, m, &[(Entry::IdxMap, with_zeros)]);
+            same_sig(&canon, &o, "the set with additional zero-weight entries vs the set alone", &mut ties)?;
+        }
+    }
     // power-of-two scaling, only where IEEE scaling of every product and sum is exact
     let lo = 2f64.powi(-900);
     let hi = 2f64.powi(900);
@@ -283,6 +298,14 @@ fn sha_eval_typed<D: Clone + Eq + Ord + std::fmt::Debug + std::hash::Hash + prob
     cuts.sort_unstable();
     cuts.dedup();
     let batches: Vec<(bool, Vec<(D, f64)>)> = cuts.windows(2).enumerate().map(|(i, w)| (c.hashmap[i % c.hashmap.len()], stream[w[0]..w[1]].to_vec())).collect();
+    // zero-weight foreign keys interleaved (the Sha variant accepts weight 0; such a key is not part of the set)
+    let mut batches = batches;
+    for (bi, (_, items)) in batches.iter_mut().enumerate() {
+        if c.order.len() % 2 == 0 {
+            items.insert(0, (conv(&format!("\u{3}zero-weight-{}", bi)), 0.0));
+            items.push((conv(&format!("\u{3}zero-weight-end-{}", bi)), 0.0));
+        }
+    }
     let (planned, planned_regs) = run_sha_keys(c.m, placeholder, &batches);
     for k in 0..c.m {
         if canon[k] != planned[k] && canon_regs[k].to_bits() != planned_regs[k].to_bits() {
